@@ -22,8 +22,20 @@ All functions are structurally recursive on the value.
 namespace SaModel.Roundtrip
 open SaModel
 
+/-- scalar leaves.  `str` / `bytes` are the OWNED leaves (`String`, `serde_bytes::ByteBuf`).  The BORROWED leaves (the target
+points into the arrays; values are the same `Val.str` / `Val.bytes`):
+* `strRef`   `&'de str` — `serialize_str`; `<&str>::deserialize` = `deserialize_str` with a visitor that takes
+             `visit_borrowed_str` only;
+* `cowStr`   `#[serde(borrow)] Cow<'de, str>` — `serialize_str`; `deserialize_str` with a visitor that borrows when it is handed
+             `visit_borrowed_str` (it would also take a transient / owned string and copy it; the model drives it with the more
+             demanding `&'de str` visitor, so a successful read means `Cow::Borrowed`);
+* `bytesRef` `#[serde(borrow, with = "serde_bytes")] &'de [u8]` — `serialize_bytes`; `deserialize_bytes`, borrowed only;
+* `bytesSeq` `&'de [u8]` with the std impls — ASYMMETRIC: `Serialize for [u8]` issues a SEQUENCE of `u8`
+             (`serialize_seq` + one `serialize_u8` per byte), `Deserialize for &[u8]` asks `deserialize_bytes` (so `from_type`
+             traces LargeBinary) and takes `visit_borrowed_bytes` only. -/
 inductive Prim where
   | bool | int (t : IntTy) | f32 | f64 | char | str | bytes
+  | strRef | cowStr | bytesRef | bytesSeq
 deriving Repr, BEq, DecidableEq
 
 mutual
@@ -131,6 +143,11 @@ def posNames (start : Nat) : Nat → List String
 
 /-! ### `#[derive(Serialize)]` -/
 
+/-- `impl Serialize for [u8]` (no serde_bytes): `serialize_seq`, one `serialize_u8` per byte -/
+def u8Seq : List UInt8 → SVals
+  | [] => .nil
+  | b :: r => .cons (.int .u8 b.toNat) (u8Seq r)
+
 mutual
 def ser : Ty → Val → SVal
   | .prim .bool, .bool b => .bool b
@@ -140,6 +157,10 @@ def ser : Ty → Val → SVal
   | .prim .char, .char c => .char c
   | .prim .str, .str s => .str s
   | .prim .bytes, .bytes b => .bytes b
+  | .prim .strRef, .str s => .str s
+  | .prim .cowStr, .str s => .str s
+  | .prim .bytesRef, .bytes b => .bytes b
+  | .prim .bytesSeq, .bytes b => .seq (u8Seq b)
   | .unit, .unit => .unit
   | .unitStruct n, .unit => .unitStruct n
   | .option _, .none => .none
@@ -198,8 +219,8 @@ def primDT (o : TraceOpts) : Prim → DataType
   | .f32 => .float32
   | .f64 => .float64
   | .char => .uint32
-  | .str => if o.stringDictionaryEncoding then .dictionary .uint32 (strDT o) else strDT o
-  | .bytes => .largeBinary
+  | .str | .strRef | .cowStr => if o.stringDictionaryEncoding then .dictionary .uint32 (strDT o) else strDT o
+  | .bytes | .bytesRef | .bytesSeq => .largeBinary
 
 def TUPLE_MD : Metadata := [(STRATEGY_KEY, "TupleAsStruct")]
 
@@ -295,6 +316,10 @@ def lv : Ty → Val → LVal
   | .prim .char, .char c => .int c
   | .prim .str, .str s => .str s.toUTF8.toList
   | .prim .bytes, .bytes b => .bin b
+  | .prim .strRef, .str s => .str s.toUTF8.toList
+  | .prim .cowStr, .str s => .str s.toUTF8.toList
+  | .prim .bytesRef, .bytes b => .bin b
+  | .prim .bytesSeq, .bytes b => .bin b
   | .option t, .some v => lv t v
   | .vec t, .vec vs => .list (lvAll t vs)
   | .tuple ts, .tuple vs => .struct (lvPos 0 ts vs)
@@ -347,6 +372,10 @@ def lvO (o : TraceOpts) : Ty → Val → LVal
   | .prim .char, .char c => .int c
   | .prim .str, .str s => .str s.toUTF8.toList
   | .prim .bytes, .bytes b => .bin b
+  | .prim .strRef, .str s => .str s.toUTF8.toList
+  | .prim .cowStr, .str s => .str s.toUTF8.toList
+  | .prim .bytesRef, .bytes b => .bin b
+  | .prim .bytesSeq, .bytes b => .bin b
   | .option t, .some v => lvO o t v
   | .vec t, .vec vs => .list (lvOAll o t vs)
   | .tuple ts, .tuple vs => .struct (lvOPos o 0 ts vs)
@@ -399,6 +428,10 @@ def Prim.wt : Prim → Val → Bool
   | .char, .char c => c < 0xD800 || (0xE000 ≤ c && c ≤ 0x10FFFF)   -- a Unicode scalar value (no surrogates)
   | .str, .str _ => true
   | .bytes, .bytes _ => true
+  | .strRef, .str _ => true
+  | .cowStr, .str _ => true
+  | .bytesRef, .bytes _ => true
+  | .bytesSeq, .bytes _ => true
   | _, _ => false
 
 mutual
@@ -509,6 +542,10 @@ def unserCore : Ty → LVal → Option Val
   | .prim .f64, .float b => some (.f64 b.toNat)
   | .prim .str, .str b => (unserStr b).map .str
   | .prim .bytes, .bin b => some (.bytes b)
+  | .prim .strRef, .str b => (unserStr b).map .str
+  | .prim .cowStr, .str b => (unserStr b).map .str
+  | .prim .bytesRef, .bin b => some (.bytes b)
+  | .prim .bytesSeq, .bin b => some (.bytes b)
   | .vec t, .list items => (unserAll t items).map .vec
   | .tuple ts, .struct fields => (unserPos ts fields).map .tuple
   | .tupleStruct _ ts, .struct fields => (unserPos ts fields).map .tuple
